@@ -98,8 +98,8 @@ KNOWN_MECHANISMS = {
 _HITS = {}
 
 
-KAK_MECH = "C15:bidiagonalize_real_matrix_pair:rank-cut-splits-degenerate-singular-cluster"
-KNOWN_MECHANISMS.add(KAK_MECH)
+KAK_MECH = "C15:bidiagonalize_real_matrix_pair:rank-cut-splits-degenerate-singular-cluster"  # repaired in /repo (98c56d0):
+# still recognised by its explained-by test so that a return is reported under this name, but no longer a known finding
 SQISW_MECH = "C15:two_qubit_matrix_to_sqrt_iswap_operations:wrong-on-the-x=pi/4-face-when-atol<1e-9(canonicalisation-windows-differ)"
 KNOWN_MECHANISMS.add(SQISW_MECH)
 BIDIAG_VE_MECH = "C15:bidiagonalize_unitary:spurious-precondition-ValueError(internal-recheck-of-svd-rotated-block)"
